@@ -1,4 +1,5 @@
 """C04: no silent failure - a failed step always yields a non-zero exit (exit 0 => complete and correct destination)."""
+from ..common import rmtree as _rmtree
 import json, os, shutil, time
 from .. import build, ctlplane, evplane, nsplane, runner, s2e, tlc
 from ..nsplane import E, SC
@@ -68,7 +69,7 @@ def run(ctx):
                 if r["kind"] == "sys":
                     per.setdefault(r["sys"], {}).setdefault(r["tid"], 0)
                     per[r["sys"]][r["tid"]] += 1
-            shutil.rmtree(o["_run"]["root"], ignore_errors=True); os.unlink(o["_run"]["trace"])
+            _rmtree(o["_run"]["root"]); os.unlink(o["_run"]["trace"])
             if o["exit"] != 0:
                 raise ToolError("C04 profiling run failed: %s" % o["_run"]["stderr"][-300:])
             counts = {s: max(c.values()) for s, c in per.items()}
@@ -112,7 +113,7 @@ def run(ctx):
         except OSError:
             pass
         recs, n = evplane.records(rid, o["_run"]["trace"], o["_run"]["root"], ["s"], ["d"], {"fsync": True, "reflink": "auto"}, o["exit"])
-        shutil.rmtree(o["_run"]["root"], ignore_errors=True)
+        _rmtree(o["_run"]["root"])
         try:
             os.unlink(o["_run"]["trace"])
         except OSError:
